@@ -21,6 +21,37 @@ CLAIMED = {
         technique="Lean 4 kernel evaluation (decide +kernel) over the regenerated table + parametric lemmas"),
 }
 
+CLAIMED.update({
+    "C02": dict(
+        text=("Proof: the mass-cache invariant (cache empty or equal to the mass of the current entries) is proved "
+              "preserved by every operation of the public mutation/arithmetic API, for all four forms of a "
+              "composition, and lifted by induction to histories of any length (`run_mass`); additivity over +/- and "
+              "linearity over * are theorems about the entry lists.  The model (Lean, import-free) is tied to the "
+              "code by executing the same generated histories on the real types and on the model."),
+        design_ref="§7.2",
+        note=NOTE_COMMON + " Counts are unbounded integers (the property excludes i32 overflow); f64 summation is idealised as exact.",
+        technique="Lean 4 invariant proof by induction over operation histories + differential correspondence"),
+    "C04": dict(
+        text=("Proof: get-level laws for +, -, *, unary minus and the constructors are theorems for all compositions "
+              "and scalars; a refinement theorem shows every non-string operation of the model of the code is one step "
+              "of a finite-map specification (`Key -> Option Int`), and uniqueness of keys is an invariant of every "
+              "public operation.  Operands-unchanged and agreement of the operator forms are theorems about the "
+              "register machine.  Tied to the code by differential execution over all nine operand pairings."),
+        design_ref="§7.4",
+        note=NOTE_COMMON + " i32 overflow excluded by the property; HashMap iteration order is unobservable in the model (entries compared sorted).",
+        technique="Lean 4 refinement proof to a finite-map spec + differential correspondence"),
+    "C06": dict(
+        text=("Proof: a lock-step theorem — two register files holding the same entries in different representations "
+              "(list, map, enum-wrapped) stay equal under every public operation and every read returns the same "
+              "value — lifted to histories of any length; conversions preserve every entry; `==` holds iff same keys "
+              "with same counts (pigeonhole via Batteries); bracket-free string keys never read or write a "
+              "fixed-isotope entry.  The same histories are run on the four real forms in lock-step and compared "
+              "with each other, the model and the spec."),
+        design_ref="§7.6",
+        note=NOTE_COMMON + " The lock-step theorem assumes plain keys present in a composition are table symbols (true of every key the API can create from the table).",
+        technique="Lean 4 lock-step (bisimulation-style) proof over histories + differential correspondence on four forms"),
+})
+
 PENDING_REASON = "check not built yet in this session; no claim is made until its model, theorems and correspondence run exist"
 
 
